@@ -22,7 +22,7 @@ void h_do_handle_deferred(void){
     __CPROVER_assert(first>=0, "C05.every-pending-deferred-occurrence-is-retried-in-a-new-cycle");
     __CPROVER_assert(first>prev_first, "C05.deferred-occurrences-are-retried-oldest-first"); prev_first=first; }
   /* (e) what is still pending was re-evaluated after the last handled event and carries the next cycle's number */
-  int last_handled=-1; for(int i=0;i<g_nlog;i++) if (g_res[i]==HANDLED_TRUE) last_handled=i;
+  int last_handled=-1; for(int i=0;i<g_nlog;i++) if (g_res[i] & HANDLED_TRUE) last_handled=i;
   for(int i=0;i<h.m_deferred_events_queue.n;i++) { int last=-1; for(int k=0;k<g_nlog;k++) if (g_log[k]==h.m_deferred_events_queue.a[i].first) last=k;
     __CPROVER_assert(last>last_handled, "C05.pending-occurrences-are-re-evaluated-after-every-handled-event");
     __CPROVER_assert(h.m_deferred_events_queue.a[i].second==(char)(h.m_cur_seq+1), "C05.pending-occurrences-wait-for-the-next-cycle"); }
@@ -64,7 +64,7 @@ for be in BACKS:
             'void do_handle_deferred(helper_t* m_events_queue, _Bool new_seq)', 'deferred_back_bounded.spec.h', mode='bounded',
             aux=auxs, cbmc_flags=['--no-signed-overflow-check'],
             harness=HARNESS, unwind={'quick': 2 * 3 + 4, 'thorough': 2 * 4 + 4}, defines=['QN=3', 'BUDGET=2'],
-            bounded='deferred queue length <= 3 (thorough: 4), at most 2 handled events per call (recursion depth), full-range char m_cur_seq; insertion sort stands in for std::stable_sort',
+            bounded='deferred queue length <= 3 (thorough: 4), at most 2 handled events per call (recursion depth), full-range char m_cur_seq, every result code 0..7 of a re-dispatched occurrence; insertion sort stands in for std::stable_sort',
             timeout=600, replay=['defer']))
 
 MQ = [dict(name='member-seq', pat='self -> m_deferred_events_queue . m_cur_seq', rep='CUR_SEQ ( self )', min=0),
